@@ -35,6 +35,7 @@ fn main() {
         "C19" | "prestate" => c19::run(seed, n, replay, &mut out),
         "bundle" => bundle::run(seed, n, replay, &mut out),
         "util" => cutil::run(seed, n, replay, &mut out),
+        "C25" => c25::run(seed, n, replay, &mut out),
         other => {
             eprintln!("unknown component {other}");
             std::process::exit(2);
